@@ -937,7 +937,15 @@ def _float(it, v="0"):
         r = ops._real(v)
         return _untag(it, r)
     if isinstance(v, str):
-        return float(v)
+        try:
+            r = float(v)
+        except ValueError:
+            raise PyRaise(ExcVal(ValueError, (f"could not convert string to float: {v!r}",)), origin="float")
+        if r != r:
+            return NAN
+        if r in (float("inf"), float("-inf")):
+            return PINF if r > 0 else NINF  # the model's own infinities (comparisons / arithmetic are defined on them)
+        return r
     raise Unsupported("float()")
 
 
